@@ -17,7 +17,8 @@ import (
 type Value struct {
 	*config
 
-	mu         sync.RWMutex
+	mu         sync.RWMutex // guards value and changeTime
+	pubMu      sync.Mutex   // taken before mu by writers and held until their event is out: events leave in commit order
 	value      proto.Message
 	changeTime time.Time
 
@@ -60,8 +61,9 @@ func (r *Value) set(value proto.Message, request WriteRequest) (proto.Message, e
 
 	disarm := timeoutAlarm(time.Second, "GetAndUpdate took too long")
 	var sendErr error
-	_, newValue, err := GetAndUpdate(
-		&r.mu,
+	var change *ValueChange
+	_, newValue, err := getAndUpdatePublish(
+		&r.mu, &r.pubMu,
 		func() (proto.Message, error) {
 			return r.value, nil
 		},
@@ -71,15 +73,15 @@ func (r *Value) set(value proto.Message, request WriteRequest) (proto.Message, e
 			r.value = message
 			r.changeTime = changeTime
 			disarm()
-
-			// publish while the write lock is still held: events then reach subscribers in the order the
-			// values were committed, so the last event a subscriber sees is the value that was stored last.
+			change = &ValueChange{Value: message, ChangeTime: changeTime}
+		},
+		func() {
+			// published in the order the values were committed (pubMu), so the last event a subscriber sees is the
+			// value that was stored last - but not under the write lock: a subscriber that reads the value
+			// between two receives must not stand in the way of the event it is about to be sent.
 			ctx, cancel := context.WithTimeout(context.TODO(), time.Second*5)
 			defer cancel()
-			r.bus.Send(ctx, &ValueChange{
-				Value:      message,
-				ChangeTime: changeTime,
-			})
+			r.bus.Send(ctx, change)
 			if errors.Is(ctx.Err(), context.DeadlineExceeded) {
 				sendErr = errors.New("bus.Send blocked for too long")
 			}
@@ -143,6 +145,9 @@ func (r *Value) onUpdate(ctx context.Context, config *ReadRequest) (<-chan any, 
 		changeTime time.Time
 	)
 	if !config.UpdatesOnly {
+		// between a commit and its event no subscription may open (it would get the change twice)
+		r.pubMu.Lock()
+		defer r.pubMu.Unlock()
 		r.mu.RLock()
 		defer r.mu.RUnlock()
 		value = r.value
